@@ -1353,9 +1353,12 @@ func (a *a2) spliceEmptySafe() bool {
 	dstP, oP := fn.Params[1], fn.Params[2]
 	commas := 0
 	ok := true
+	// the operand of len() is read along the path: `fields := withoutOpeningBrace(o)` is a phi of o
+	// and o[1:]
+	var curPath Path
 	isLenOf := func(v ssa.Value, p ssa.Value) bool {
 		cc, ok := v.(*ssa.Call)
-		return ok && builtinName(&cc.Call) == "len" && cc.Call.Args[0] == p
+		return ok && builtinName(&cc.Call) == "len" && curPath.Resolve(cc.Call.Args[0]) == p
 	}
 	// len(o[1:]): what is left of the spliced object after its opening brace
 	isLenOfRest := func(v ssa.Value) bool {
@@ -1363,7 +1366,7 @@ func (a *a2) spliceEmptySafe() bool {
 		if !ok || builtinName(&cc.Call) != "len" {
 			return false
 		}
-		sl, ok := cc.Call.Args[0].(*ssa.Slice)
+		sl, ok := curPath.Resolve(cc.Call.Args[0]).(*ssa.Slice)
 		if !ok || sl.X != ssa.Value(oP) || sl.High != nil {
 			return false
 		}
@@ -1375,6 +1378,10 @@ func (a *a2) spliceEmptySafe() bool {
 		ok = false
 	}
 	for _, pa := range paths {
+		curPath = pa
+		if pa.Infeasible() {
+			continue
+		}
 		for _, in := range pa.Instrs() {
 			c, isCall := in.(*ssa.Call)
 			if !isCall || builtinName(&c.Call) != "append" || len(c.Call.Args) < 2 || !appendsConstByte(c, ',') {
